@@ -34,7 +34,27 @@ def tokens_of(src):
     return re.findall(r"\s+|\w+|\"[^\"]*\"|//[^\n]*|<=>|<!>|::|:=|->|==|!=|<=|>=|\+=|-=|\*=|/=|.", src, re.S)
 
 
+SNIPPETS = ["%(T)s :: blob { q: int }", "%(T)s :: enum Qq end", "%(v)s: fn -> void : external", "%(v)s :: 1",
+            "%(v)s := %(v)s", "%(v)s = %(v)s", "%(v)s.q = 1", "%(v)s[0] = 1", "%(T)s.q = 1", "%(v)s()", "%(T)s { q: 1 }",
+            "use %(v)s", "from %(v)s use %(v)s", "break", "continue", "ret", "ret %(v)s", "<!>", "%(v)s -> %(v)s()",
+            "case %(v)s do else end end", "loop do end", "if %(v)s do end", "%(T)s.Qq", "-%(v)s", "not %(v)s",
+            "%(v)s <=> %(v)s", "do %(T)s :: blob {} end"]
+
+
+def plant(r, src):
+    """insert a statement built from the program's own identifiers at a random line"""
+    lines = src.split("\n")
+    caps = sorted(set(re.findall(r"\b[A-Z]\w*", src))) or ["A"]
+    lows = sorted(set(re.findall(r"\b[a-z_]\w*", src)) - {"do", "end", "fn", "if", "else", "loop", "ret", "use"}) or ["x"]
+    i = r.randint(0, len(lines))
+    ind = re.match(r"\s*", lines[min(i, len(lines) - 1)]).group(0) if lines else ""
+    stmt = r.choice(SNIPPETS) % {"T": r.choice(caps), "v": r.choice(lows)}
+    return "\n".join(lines[:i] + [ind + stmt] + lines[i:])
+
+
 def mutate(r, src):
+    if r.random() < 0.25:
+        return plant(r, src)
     toks = tokens_of(src)
     if not toks:
         return src
